@@ -1,4 +1,4 @@
-import VncModel.Resize.Runs
+import VncModel.Resize.Teardown
 /-!
 # C16 — Replacing the framebuffer is safe and every client resynchronises
 
@@ -36,14 +36,23 @@ has ≥ 1 pixel, copy regions are well-formed and inside the screen) are spelled
 * `pointer_inside_after_replacement` — the cursor position is inside the new area.
 * `ext_message_fits_update_buffer`, `setdesktopsize_payload_bound` — on the regenerated constants.
 
-**Partial / not proved here**: the refinement of the region-level model to the set-level
-specification of C02 is only stated for the state right after the replacement (`resync_converges`
-starts C02's invariant from `den` of the model state; the later region-level operations are tied to
-the code by the correspondence run, not by a refinement proof).  Clients WITHOUT resize support:
-the code sends them rectangles of the new geometry without telling them; the property only demands
-that those rectangles stay inside the new size, which `rects_inside_new_size` gives for every client.
-Scaled clients: only the upper bound `x2 ≤ sw ∧ y2 ≤ sh` is proved for their rectangles (the lower
-part depends on the floating-point arithmetic of rfbScaledCorrection, C17).
+* `converges_in_every_history`, `invariant_means_current`, `invariant_starts_full` — C02's
+  convergence invariant in EVERY state of EVERY history of this model, across any number of
+  replacements (composition with C02's refinement `Update/Refine.lean`; ghost pixels `fb`, `pic`).
+* `torn_down_client_is_silent`, `failed_size_write_closes` — a client that does not resynchronise
+  because its connection is gone is torn down and never served again.
+* `emitters_stay_inside_buffer`, `size_shortcircuit_never_flushes`, `ext_message_limit` — the flush
+  rule of rfbSendNewFBSize / rfbSendExtDesktopSize on the regenerated constants.
+
+**Partial / not proved here**: scaled clients: only the upper bound `x2 ≤ sw ∧ y2 ≤ sh` is proved for
+their rectangles (the lower part depends on the floating-point arithmetic of rfbScaledCorrection,
+C17), and for them `pic` in the convergence theorems denotes the picture mapped back to screen
+coordinates.  Clients WITHOUT resize support: the code sends them rectangles of the new geometry
+without telling them; the property only demands that those rectangles stay inside the new size,
+which `rects_inside_new_size` gives for every client.  History theorems about ONE client's messages
+(`size_message_first`, `answer_delivered`) assume its connection is not lost and the application's
+screen hook does not fail meanwhile (`Op.noFailure`); the failure arms themselves are modelled
+(`updateFail`, `updateExtFail`, `drop`) and covered by `torn_down_client_is_silent`.
 -/
 namespace VncModel.Props.C16
 open VncModel.Resize VncModel.Rgn
@@ -108,7 +117,7 @@ applies from that later point). -/
 theorem size_message_first (id : Nat) (tw th : Int) (ops : List Op) (st : State) (c0 : Client)
     (hu : Uniq id st c0) (hnf : c0.useNewFBSize = true) (hp : c0.pending = true)
     (hw : c0.sw = tw) (hh : c0.sh = th)
-    (hA : ∀ op ∈ ops, op.appResize = false ∧ op.keepsCap id ∧ op.noRescale id) :
+    (hA : ∀ op ∈ ops, op.appResize = false ∧ op.keepsCap id ∧ op.noRescale id ∧ op.noFailure id) :
     ∀ m, (msgsTo id (run st ops).2).head? = some m →
       m = .size tw th ∨ ∃ r s, m = .ext r s tw th [(1, 0, 0, tw, th, 0)] :=
   size_first id tw th ops st c0 hu ⟨hnf, hp, hw, hh⟩ hA
@@ -151,6 +160,64 @@ theorem full_request_completes {V : Type} (S : PSet) (s : SState V) (hI : Inv S 
     (hr : ∀ p, S p → r p) :
     ∃ t, Reach S s t ∧ (∀ p, S p → t.pic p = t.fb p) ∧ t.fb = s.fb :=
   VncModel.Resize.full_request_completes S s hI r hr
+
+open VncModel.USpec VncModel.Update.Refine in
+/-- **converges_in_every_history**: the convergence invariant of C02 (a screen pixel that is not
+scheduled as modified equals the client's picture there, or at the copy source while a copy is
+pending) holds for client `id` in EVERY state of EVERY history of the model — framebuffer
+replacements (by the application or inside its SetDesktopSize hook), failed updates and lost
+connections included — for every evolution of the framebuffer contents the application is allowed
+(`FbOk`) and the picture the client keeps (`PicOk`).  Composition of `cinv_step` (each operation is
+one of C02's refined operations, leaves the abstraction alone, or is a replacement, which restarts
+the invariant for ANY new contents and ANY stale picture) with C02's `Inv_reach`. -/
+theorem converges_in_every_history {V : Type} (id : Nat) (st st' : State)
+    (fb pic fb' pic' : Pix → V) (ops : List Op)
+    (h : GRun id st fb pic ops st' fb' pic') (hI : CInv id st fb pic) :
+    CInv id st' fb' pic' ∧ st' = (run st ops).1 :=
+  ⟨cinv_run h hI, h.state⟩
+
+open VncModel.USpec VncModel.Update.Refine in
+/-- **invariant_means_current**: what the invariant says in a state — pixels of the CURRENT screen
+outside the modified / copy regions are correct in the client's picture; a client with nothing
+scheduled holds the whole current framebuffer -/
+theorem invariant_means_current {V : Type} (id : Nat) (st : State) (fb pic : Pix → V)
+    (h : CInv id st fb pic) :
+    ∃ c0, Uniq id st c0 ∧ (c0.base.isOpen = true →
+      (∀ p, VncModel.Update.Refine.S st.scr.base p → ¬ dset c0.base.M p → ¬ dset c0.base.C p → pic p = fb p) ∧
+      (c0.base.M.isEmpty = true → c0.base.C.isEmpty = true →
+        ∀ p, VncModel.Update.Refine.S st.scr.base p → pic p = fb p)) :=
+  cinv_current h
+
+open VncModel.USpec VncModel.Update.Refine in
+/-- **invariant_starts_full**: the invariant holds whenever the whole screen is scheduled — a fresh
+connection, and (by `replacement_schedules_everything`) every client right after a replacement -/
+theorem invariant_starts_full {V : Type} (id : Nat) (st : State) (c0 : Client) (hu : Uniq id st c0)
+    (hw : WFc c0.base) (hM : ∀ p, VncModel.Update.Refine.S st.scr.base p → dset c0.base.M p) (fb pic : Pix → V) :
+    CInv id st fb pic :=
+  cinv_of_full id st c0 hu hw hM fb pic
+
+/-! ## 2b. a client that cannot resynchronise is torn down -/
+
+/-- **failed_size_write_closes**: when the pending size message (or any update) cannot be written
+because the peer is gone, the connection is closed -/
+theorem failed_size_write_closes (s : Screen) (c : Client) (hp : updatePending s c = true)
+    (hnf : c.useNewFBSize = true) (hpe : c.pending = true) :
+    (updateClientFail s c).base.isOpen = false :=
+  updateFail_closes s c (pending_size_is_written s c hp hnf hpe)
+
+/-- **torn_down_client_is_silent**: a closed client record receives nothing in any later history
+(replacements included) and stays closed until it is reaped -/
+theorem torn_down_client_is_silent (id : Nat) (ops : List Op) (st : State) (c0 : Client)
+    (hu : Uniq id st c0) (hc : c0.base.isOpen = false) (hA : ∀ op ∈ ops, op.notFrom id) :
+    msgsTo id (run st ops).2 = [] ∧ ∃ c1, Uniq id (run st ops).1 c1 ∧ c1.base.isOpen = false :=
+  closed_client_never_served id ops st c0 hu hc hA
+
+/-- the screen hook failing: the extended size message is dropped, the fields are reset all the
+same, the client stays connected (code as it is; the application's fault) -/
+theorem ext_hook_failure_drops_message (st : State) (id : Nat) (c : Client)
+    (hg : getClient st id = some c) (hx : extFails c = true) :
+    (step st (.updateExtFail id)).2.msgs = [] := by
+  simp [step, hg, hx]
 
 /-! ## 3. later rectangles stay inside the new size -/
 
@@ -256,7 +323,7 @@ message it receives in any later history without further SetDesktopSize messages
 one with exactly these two values. -/
 theorem answer_delivered (id : Nat) (r s : Int) (ops : List Op) (st : State) (c0 : Client)
     (hu : Uniq id st c0) (hext : c0.useExt = true) (hr : c0.reqChange = r) (hs : c0.lastErr = s)
-    (hA : ∀ op ∈ ops, op.keepsExt id ∧ op.noSds) :
+    (hA : ∀ op ∈ ops, op.keepsExt id ∧ op.noSds ∧ op.noFailure id) :
     ∀ m, (msgsTo id (run st ops).2).find? Msg.isSize = some m → ∃ w h l, m = .ext r s w h l :=
   ext_fields_delivered id r s ops st c0 hu ⟨hext, hr, hs⟩ hA
 
@@ -320,6 +387,24 @@ theorem setdesktopsize_payload_bound (n : Nat) (h : n ≤ VncModel.Gen.C16.maxSc
   rw [h2]
   omega
 
+/-- **emitters_stay_inside_buffer**: the flush rule of rfbSendNewFBSize / rfbSendExtDesktopSize keeps
+`ublen` within the update buffer for every rectangle that fits a buffer at all -/
+theorem emitters_stay_inside_buffer (ublen need : Nat) (hn : need ≤ VncModel.Gen.C16.UPDATE_BUF_SIZE) :
+    (emit ublen need).2 ≤ VncModel.Gen.C16.UPDATE_BUF_SIZE :=
+  emit_inside ublen need hn
+
+/-- **size_shortcircuit_never_flushes**: where the emitters are really called (after the 4-byte
+FramebufferUpdate header) the flush branch is dead for every screen count the wire can carry -/
+theorem size_shortcircuit_never_flushes (n : Nat) (h : n ≤ VncModel.Gen.C16.maxScreensInRequest) :
+    (emit VncModel.Gen.C16.sz_rfbFramebufferUpdateMsg (needExt n)).1 = 0 ∧
+    (emit VncModel.Gen.C16.sz_rfbFramebufferUpdateMsg needNewFB).1 = 0 :=
+  shortcircuit_never_flushes n h
+
+/-- **ext_message_limit**: the extended rectangle fits the update buffer iff the application reports
+at most 2047 screens (beyond that `updateBuf` is overrun: the rule flushes, it never splits) -/
+theorem ext_message_limit (n : Nat) : needExt n ≤ VncModel.Gen.C16.UPDATE_BUF_SIZE ↔ n ≤ 2047 :=
+  ext_fits_iff n
+
 /-! ## Non-vacuity -/
 
 /-- a concrete state: 8×6 screen, 32 bpp, buffer 0, one ExtendedDesktopSize client -/
@@ -368,5 +453,21 @@ example : hookCode (some (3, none)) = 3 ∧ hookCode (some (0, some (5, 4, 4, 7)
 /-- `GoodSt` holds initially and for `exState`'s screen constants -/
 example : GoodSt (initState 8 6 4 0) :=
   ⟨by unfold ScrOk; decide, fun c hc => by simp [initState] at hc⟩
+
+/-- `CInv` is satisfiable and `GRun` has real members: a replacement followed by a request and an
+update of client 0 -/
+example : CInv (V := Nat) 0 exSt (fun _ => 1) (fun _ => 0) :=
+  invariant_starts_full 0 exSt exClient
+    ⟨by simp [exSt], rfl, fun c hc _ => by simpa [exSt] using hc⟩
+    ⟨show (Region.rect 0 0 8 6).WF from rect_wf _ _ _ _, trivial, trivial⟩
+    (fun p hp => show (Region.rect 0 0 8 6).den p.1 p.2 from (rect_den 0 0 8 6 p.1 p.2).mpr hp) _ _
+
+example : ∃ st' fb' pic', GRun (V := Nat) 0 exSt (fun _ => 1) (fun _ => 0)
+    [.newFramebuffer 5 4 2 1, .request 0 false 0 0 5 4] st' fb' pic' :=
+  ⟨_, _, _, GRun.cons (fb1 := fun _ => 2) (pic1 := fun _ => 0) trivial trivial
+    (GRun.cons (fb1 := fun _ => 2) (pic1 := fun _ => 0) rfl rfl (GRun.nil _ _ _))⟩
+
+/-- a closed record (hypothesis of `torn_down_client_is_silent`) arises from a failed size write -/
+example : (closeClient exClient).base.isOpen = false := rfl
 
 end VncModel.Props.C16
